@@ -1022,8 +1022,11 @@ F32 = 'F32-same-width-ext-trunc-of-compound'
 F33 = 'F33-folded-constant-recomputed-narrow'
 F34 = 'F34-loop-variable-named-like-global'
 D1 = 'D1-descending-loop-variable-as-value'
-T3 = 'T3-folded-constant-in-struct-field'
-T4 = 'T4-negative-integer-constant'
+T3 = 'regression-T3-folded-constant-in-struct-field'      # repaired 0e3882f: a folded constant takes the width of its context
+T4 = 'regression-T4-negative-integer-constant'            # repaired 4f83e01: rejected
+T5 = 'T5-struct-closure-constant-without-typedef'
+T6 = 'T6-temporary-of-earlier-block-shadows-closure-name'
+T7 = 'T7-temporary-variable-name-collision'
 D2 = 'D2-same-child-port-to-port-connection'
 D3 = 'D3-same-operator-nesting'
 T1 = 'regression-T1-select-of-computed-value'             # repaired d462da9: rejected by the type checker / yosys keeps the concatenation text
@@ -1043,8 +1046,9 @@ FINDING_STREAMS = {
 # labelled streams of confirmed defects that are neither registered as known findings nor repaired yet: a check runs such a
 # stream only once known_findings.json has an entry of its property whose match.finding is the stream id
 PENDING_STREAMS = {
-  T3: (('verilog', 'yosys'), ('output-mismatch',)),      # Foo( s.x, 2*s.N ) -> { x, 3'd6 }: the folded literal keeps its minimal width inside the concatenation
-  T4: (('verilog', 'yosys'), ('syntax-invalid',)),       # s.OFF = -2 / closure k = -2 read in a pure-int comparison -> 1'd-2
+  T5: (('verilog',), ('syntax-invalid',)),               # ks = Pt(1,2) (closure) used whole in a block, no port / wire of type Pt: localparam of an undeclared type (yosys rejects struct closure constants)
+  T6: (('verilog', 'yosys'), ('rejected-translatable',)),  # temporary `u` of block up1, closure `u` read in block up2: spurious rejection (tmp_var_env is never reset)
+  T7: (('verilog', 'yosys'), ('syntax-invalid', 'multi-driver')),   # block up + temporary a_b / block up_a + temporary b: both declared as __tmpvar__up_a_b
 }
 
 def registered(fid, pid):
@@ -1064,7 +1068,7 @@ FIXED_STREAMS = {
   F31: ('verilog', 'yosys'), F32: ('verilog', 'yosys'), F33: ('verilog', 'yosys'), F34: ('verilog', 'yosys'),
   F38: ('verilog', 'yosys'), F39: ('verilog', 'yosys'),
   D2: ('verilog', 'yosys'),   # directed: the parent connects two ports of the SAME child (rejected on the current tree: counted; seeded C03-7); control: via a parent wire
-  T1: ('verilog', 'yosys'), T2: ('verilog', 'yosys'),
+  T1: ('verilog', 'yosys'), T2: ('verilog', 'yosys'), T3: ('verilog', 'yosys'), T4: ('verilog', 'yosys'),
   D3: ('verilog', 'yosys'),   # directed: right-nested chains of -, >>, <<, % with operand values for which the groupings differ (seeded C03-8)
   D1: ('verilog',),       # directed (not a repaired defect): descending loops whose variable is used as a VALUE of its own width (seeded C03-2); yosys rejects negative steps
 }
@@ -1312,6 +1316,21 @@ def gen_finding(rng, be, fid):
     L += ['class Top( Component ):', '  def construct( s ):', '    s.a = InPort( Bits8 )', '    s.o = OutPort( Bits8 )'] + \
          ([f'    s.OFF = {v}'] if variant == 'attribute' else [f'    k = {v}'] if variant == 'closure' else []) + \
          ['    @update', '    def up():', f"      if {name} < {rng.choice([0, 1])}:", f"        s.o @= s.a {rng.choice('+^')} {rng.randint(1, 200)}", '      else:', '        s.o @= s.a']
+  elif fid == T5:
+    a_, b_ = rng.randint(0, 15), rng.randint(0, 15)
+    L[1:1] = ['@bitstruct', 'class Pt:', '  x: Bits4', '  y: Bits4', '']
+    L += ['class Top( Component ):', '  def construct( s ):', '    s.a = InPort( Bits4 )', '    s.q = OutPort( Bits1 )', f'    ks = Pt( {a_}, {b_} )',
+          '    @update', '    def up():', f"      s.q @= {rng.choice(['ks == Pt( s.a, %d )' % b_, 'Pt( %d, s.a ) != ks' % a_])}"]
+  elif fid == T6:
+    nm = rng.choice(['u', 'tmp', 'k'])
+    L += ['class Top( Component ):', '  def construct( s ):', '    s.a = InPort( Bits8 )', '    s.o = OutPort( Bits8 )', '    s.p = OutPort( Bits8 )', f'    {nm} = {rng.randint(1, 200)}',
+          '    @update', '    def up1():', f"      {nm} = s.a {rng.choice('^+&')} {rng.randint(1, 200)}", f'      s.o @= {nm}',
+          '    @update', '    def up2():', f"      s.p @= s.a {rng.choice('+^')} {nm}"]
+  elif fid == T7:
+    same = rng.random() < 0.5
+    L += ['class Top( Component ):', '  def construct( s ):', '    s.a = InPort( Bits8 )', '    s.o = OutPort( Bits8 )', f"    s.p = OutPort( Bits{8 if same else 4} )",
+          '    @update', '    def up():', f"      a_b = s.a {rng.choice('+^')} {rng.randint(1, 200)}", '      s.o @= a_b',
+          '    @update', '    def up_a():', f"      b = {'s.a' if same else 's.a[0:4]'} ^ {rng.randint(1, 15)}", '      s.p @= b']
   elif fid == T2:
     W = rng.choice([4, 8])
     op = rng.choice('&|^')
@@ -1397,10 +1416,13 @@ def gen_finding(rng, be, fid):
     d = {'src': '\n'.join(L) + '\n', 'label': ('' if fid.startswith('regression-') else 'fixed:') + fid + (':' + variant if variant else ''), 'features': ['fixed-defect-shape']}
     if fid == D3: d['cycles'] = fixed_cycles
     if fid == T1 and variant != 'concat-index': d['must_reject'] = 'cannot select bits of a computed value'
+    if fid == T4: d['must_reject'] = 'negative integer constant'
     return d
   if fid in PENDING_STREAMS:
-    return {'src': '\n'.join(L) + '\n', 'label': fid + (':' + variant if variant else ''), 'finding': fid, 'variant': variant,
-            'expect': PENDING_STREAMS[fid][1], 'features': ['finding-stream']}
+    d = {'src': '\n'.join(L) + '\n', 'label': fid + (':' + variant if variant else ''), 'finding': fid, 'variant': variant,
+         'expect': PENDING_STREAMS[fid][1], 'features': ['finding-stream']}
+    if fid == T6: d['must_translate'] = True
+    return d
   d = {'src': '\n'.join(L) + '\n', 'label': fid + (':' + variant if variant else ''), 'finding': fid, 'variant': variant,
        'expect': FINDING_STREAMS[fid][1], 'features': ['finding-stream']}
   if variant == 'const-array-field': d['expect'] = ('multi-driver', 'undriven'); d['scope'] = ('cfg',)
